@@ -70,3 +70,22 @@ fn challenge_short_payload_rejected() {
     validate_challenge(&e, &cdj, &Bytes::from_slice(&e, &buf[..len]));
     panic!("accepted a payload shorter than 32 bytes");
 }
+
+/// DOCUMENTS A BEHAVIOUR (reported as an observation for C18): only the first 32 payload bytes are bound by the
+/// challenge.  For every 33-byte payload the genuine challenge of its 32-byte prefix is accepted, whatever byte 32 is.
+#[kani::proof]
+#[kani::unwind(45)]
+fn challenge_len33_tail_ignored() {
+    let payload: [u8; 33] = kani::any();
+    let mut ch = [0u8; 43];
+    let mut k = 0;
+    while k < 43 {
+        ch[k] = reference_char(&payload[..32], k);
+        k += 1;
+    }
+    let s = unsafe { core::str::from_utf8_unchecked(&ch) };
+    let cdj = ClientDataJson { challenge: s, type_field: "webauthn.get" };
+    let e = Env::default();
+    set_trap_mode(TrapMode::Strict);
+    validate_challenge(&e, &cdj, &Bytes::from_array(&e, &payload));
+}
